@@ -206,7 +206,8 @@ func VerifC22RoundTrip() {
 	var sent [][]byte
 	decoded := 0
 	decodeOne := func() {
-		var got verifC22Msg
+		// the receiving message may hold earlier content (messages are reused)
+		got := verifC22Msg{payload: []byte{0xAA, 0x55}}
 		err := dec.Decode(&got)
 		vAssert(err == nil, "a message that was written decodes without error")
 		vAssert(!w.starved, "a message that was written decodes without waiting for further data")
